@@ -32,7 +32,7 @@ type Leaf struct {
 	Exp      Exp
 	Ctx      string // "field", "untagged-map", "taggable-map", "top-level"
 	Tag      string
-	Direct   bool // reachable from the root through by-value struct fields only (unsettable when the payload is passed by value)
+	Direct   bool   // reachable from the root through by-value struct fields only (unsettable when the payload is passed by value)
 	Under    string // container kinds on the way, e.g. "ptr>map>slice"
 	ViaMapSV bool   // passes through a struct stored by value in a map
 	ViaIfSl  bool   // passes through a []interface{} element
